@@ -515,10 +515,15 @@ def formula_text(case, spelling=None):
     d = (lambda: g.choice([' : ', ' = ', ':', '=', '\t=\t'])) if g else (lambda: ' = ')
     def sp(s):
         if not g: return s
-        s = s.replace(', ', g.choice([',', ', ', ' , ', ',\n    '])).replace(' + ', g.choice([' + ', '+', '\n     + ']))
+        s = s.replace(', ', g.choice([',', ', ', ' , ', ',\n    '])).replace(' + ', g.choice([' + ', '+', '\n     + ', ' // so far\n     + ']))     # an end-of-line comment ends at the line break
         gap = g.choice(['', ' ', '  ', '\t', '\n    '])            # blanks between a function name and its parenthesis
         for nm in p_c12.NAMES + ['as.polynomial', 'pymath.floor', 'pymath.ceil', 'pymath.fabs', 'if']:
             s = s.replace(nm + '(', nm + gap + '(')
+        k = g.random()
+        if k < 0.2:          # the formula language resolves names whatever their case
+            for nm in ['as.polynomial', 'pymath.floor', 'pymath.ceil', 'pymath.fabs']: s = s.replace(nm, g.choice([nm.upper(), nm.title(), nm[:3] + nm[3:].capitalize()]))
+        elif k < 0.4:        # several statements: ' ; ' separates them, the last one is the value
+            s = 'var v0 := (%s) ; var v1 := v0 ; v1' % s
         return s
     forms = []
     for j, (nv, b) in enumerate(zip(case['arities'], case['bodies'])):
